@@ -17,6 +17,24 @@ import (
 
 func TestMain(m *testing.M) { ev.Main(m, "C03", "exploration") }
 
+// order probes: each XYZ function of each space checked against the reference, in a generated order, in a fresh process
+func init() {
+	for i := range sp.Spaces {
+		name := sp.Spaces[i].Name
+		for _, dir := range []string{"toXYZ", "fromXYZ"} {
+			dir := dir
+			ev.RegisterProbe(name+"."+dir, func() string {
+				for _, v := range [][3]float32{{0.25, 0.5, 0.75}, {1, 1, 1}, {0, 1, 0}} {
+					if k, w := check(Case{name, dir, v}); k != "" {
+						return w
+					}
+				}
+				return ""
+			})
+		}
+	}
+}
+
 type Case struct {
 	Space string     `json:"space"`
 	Dir   string     `json:"dir"` // "toXYZ", "fromXYZ", "rt-rgb", "rt-xyz"
@@ -116,11 +134,24 @@ func nontrivial(v [3]float32) bool {
 
 func TestC03(t *testing.T) {
 	if ev.Replaying() != nil {
+		if ev.ReplayOrder(t) {
+			return
+		}
 		var c Case
 		if err := ev.ReplayCase(&c); err != nil {
 			t.Fatal(err)
 		}
-		if c.Dir == "declared" || c.Dir == "coeff" {
+		if ev.ReplayCheck() == "order" {
+			var f ev.ProbeFailure
+			_ = ev.ReplayCase(&f)
+			fails, err := ev.RunProbeOrder(f.Order)
+			if err != nil {
+				t.Fatal(err)
+			}
+			for _, x := range fails {
+				ev.Violation("order", "first-use-order/"+x.Probe, x.What, x)
+			}
+		} else if c.Dir == "declared" || c.Dir == "coeff" {
 			staticChecks(space(c.Space))
 		} else if k, w := check(c); k != "" {
 			ev.Fail(t, "xyz", c.Space+"/"+k, w, c)
@@ -136,6 +167,7 @@ func TestC03(t *testing.T) {
 	ev.Assume("published chromaticities transcribed in internal/ref; equality with published values at the precision of publication (5e-5)")
 	ev.Set("tolerances", map[string]float64{"coefficient": 1e-6, "transform": 1.5e-6, "roundtrip": 2e-6, "published": 5e-5})
 
+	ev.ProbeOrders(ev.Pick(10, 200))
 	for i := range sp.Spaces {
 		staticChecks(&sp.Spaces[i])
 	}
